@@ -92,7 +92,9 @@ func ScriptBarePreprepareFork() *Result {
 	for _, to := range []string{"nd02", "nd03"} {
 		w.Deliver(w.Inject("nd01", to, adv.mkRefMsg(ref.EnvC, ref.C, "nd01", inst, 1, 1, spi.HashOf(E), nil)))
 	}
-	w.deliverAll(func(f *Flight) bool { return f.Honest && f.Msg != nil && f.Msg.Env == ref.EnvC && f.Msg.V == 1 && f.To != "nd00" })
+	w.deliverAll(func(f *Flight) bool {
+		return f.Honest && f.Msg != nil && f.Msg.Env == ref.EnvC && f.Msg.V == 1 && f.To != "nd00"
+	})
 	w.release()
 	return &Result{Cfg: w.Cfg, Viol: w.Mon.Viol, Stats: w.Mon.Stats, Trace: w.Trace, Steps: len(w.Trace)}
 }
@@ -109,7 +111,6 @@ func ScriptHeavyMember() *Result {
 	w.release()
 	return res
 }
-
 
 func (w *World) release() {
 	for _, id := range w.Order {
